@@ -86,7 +86,17 @@ theorem rup_sound {fuel db c} (h : rupCheck fuel db c = true) : ∀ σ, satisfie
         | true => exact absurd (by simp [Clause.eval]; exact ⟨l0, hl0, h0⟩) hc
       simp [this]
     have := propagate_sound hdb fuel _ hag
-    simp [rupCheck, this] at h
+    simp only [rupCheck, this, Bool.or_false, List.any_eq_true, List.contains_eq_mem, decide_eq_true_eq] at h
+    obtain ⟨l, hl, hln⟩ := h
+    have h1 : l.eval σ = false := by
+      cases h0 : l.eval σ with
+      | false => rfl
+      | true => exact absurd (by simp [Clause.eval]; exact ⟨l, hl, h0⟩) hc
+    have h2 : l.not.eval σ = false := by
+      cases h0 : l.not.eval σ with
+      | false => rfl
+      | true => exact absurd (by simp only [Clause.eval, List.any_eq_true]; exact ⟨l.not, hln, h0⟩) hc
+    simp [h1] at h2
 
 /-- a list-of-true-literals model that passes `modelSat` yields a satisfying assignment -/
 theorem modelSat_sound {m : List Lit} {c : Clause} (h : modelSat m c = true) (σ : Asg) (hm : agrees σ m) :
